@@ -113,11 +113,94 @@ def pathStr (p : Path) : Str :=
   | "/" :: rest => ('/' :: ("/".intercalate rest).toList)
   | parts => ("/".intercalate parts).toList
 
-/-- `p.relative_to(project)` falling back to `p` (the `except ValueError` branch);
-`None` is shown as the empty string -/
+/-- `p.relative_to(project)` falling back to `p` (the `except ValueError` branch), as
+components: a path inside the project loses the project's components, any other path is
+shown as it is -/
+def displayParts (project p : Path) : Path :=
+  if project <+: p then p.drop project.length else p
+
+/-- what a path should be shown as: `None` as the empty string, a path relative to the
+project when it is inside, else unchanged -/
 def displayPath (project : Path) : Option Path → Str
   | none => []
-  | some p => pathStr (if project <+: p then p.drop project.length else p)
+  | some p => pathStr (displayParts project p)
+
+/-- reading a shown path back, as a client of the diff does: an absolute path is itself, a
+relative one is below the project -/
+def resolveParts (project shown : Path) : Path :=
+  if shown.head? = some "/" then shown else project ++ shown
+
+/-- an absolute POSIX path as pathlib holds it: the root, then components none of which is
+the root marker -/
+def AbsPath (p : Path) : Prop := p.head? = some "/" ∧ "/" ∉ p.tail
+
+/-! ### the header computation of `ChangedFile.get_diff`, as written in the source
+
+```
+if <guard> is None: v = <noneText>
+else:
+    try: v = <subject>.relative_to(project_path)
+    except ValueError: v = <fallback>
+... fromfile=str(from_p), tofile=str(to_p)
+```
+`guard`, `subject`, `fallback` are the attribute expressions found in the source (translator
+constants `diffFromHeader` / `diffToHeader`); the model evaluates them, it does not assume
+that they are the same attribute. -/
+
+inductive HdrErr where
+  /-- `None.relative_to(..)` -/
+  | attributeError
+  /-- an expression the model has no meaning for -/
+  | unknownExpr
+deriving DecidableEq, Repr
+
+/-- the value of an attribute expression of a `ChangedFile` -/
+def cfAttr (expr : String) (fromP toP : Option Path) : Except HdrErr (Option Path) :=
+  if expr = "self._from_path" then .ok fromP
+  else if expr = "self._to_path" then .ok toP
+  else .error .unknownExpr
+
+/-- `str(x)` for a path or `None` -/
+def strOpt : Option Path → Str
+  | none => "None".toList
+  | some p => pathStr p
+
+def headerPath (spec : String × String × String × String) (project : Path)
+    (fromP toP : Option Path) : Except HdrErr Str :=
+  match cfAttr spec.1 fromP toP with
+  | .error e => .error e
+  | .ok none => .ok spec.2.1.toList
+  | .ok (some _) =>
+    match cfAttr spec.2.2.1 fromP toP with
+    | .error e => .error e
+    | .ok none => .error .attributeError
+    | .ok (some p) =>
+      if project <+: p then .ok (pathStr (p.drop project.length))
+      else match cfAttr spec.2.2.2 fromP toP with
+        | .error e => .error e
+        | .ok q => .ok (strOpt q)
+
+/-! ### the `rename from … / rename to …` lines of `Refactoring.get_diff` -/
+
+/-- `_try_relative_to(path, base)` with the roles read from the source: `sel = (r, a, f)`
+means `try: return args[r].relative_to(args[a])  except ValueError: return args[f]` -/
+def tryRelativeTo (sel : Nat × Nat × Nat) (path base : Path) : Path :=
+  let arg := fun (i : Nat) => if i = 0 then path else base
+  if arg sel.2.1 <+: arg sel.1 then (arg sel.1).drop (arg sel.2.1).length else arg sel.2.2
+
+/-- `pieces[0] % a0 % pieces[1] …` — the `%s` format with the arguments in source order;
+`args` selects the element of the rename pair for each `%s` -/
+def renameLine (sel : Nat × Nat × Nat) (pieces : List String) (args : List Nat) (project : Path)
+    (r : Path × Path) : Str :=
+  match pieces with
+  | [] => []
+  | p0 :: rest =>
+    p0.toList ++ ((args.zip rest).flatMap fun (a, piece) =>
+      pathStr (tryRelativeTo sel (if a = 0 then r.1 else r.2) project) ++ piece.toList)
+
+def renameLines (sel : Nat × Nat × Nat) (pieces : List String) (args : List Nat) (project : Path)
+    (rs : List (Path × Path)) : Str :=
+  rs.flatMap (renameLine sel pieces args project)
 
 /-- where `rename fs old new` puts the file that was at `q` -/
 def renamedPath (old new q : Path) : Path := if old <+: q then new ++ q.drop old.length else q
